@@ -423,6 +423,15 @@ def run(ctx):
         except Exception as e:
             impls.append(K.canon_exc(e))
         lines.append('scrub ' + K.py_in(v))
+        # the statement itself, independent of the Lean mirror: bytes as they are; a str is its hexadecimal notation (with or without 0x)
+        # when it is one — the empty notation "" / "0x" denotes the empty message — and its ASCII characters otherwise
+        try:
+            want = 'ok ' + K.hx(K.scrub_spec(v))
+        except ValueError:
+            want = 'err'
+        if (want == 'err') != impls[-1].startswith('err') or (want != 'err' and want != impls[-1]):
+            ctx.violation('scrub:' + ('empty-hex' if v in ('', '0x') else 'value'), f'scrub_input({v!r}) gives {impls[-1]}, the message / signature bytes it denotes are {want}',
+                          {'input': K.py_in(v), 'got': impls[-1], 'want': want})
     model = ctx.model(lines)
     for i, v in enumerate(inputs):
         ctx.case({'stream': 'scrub', 'input': K.py_in(v)[:80]}, nontrivial=isinstance(v, str))
